@@ -124,6 +124,7 @@ def run(rep, tier, seed):
                 shared_y0[k] = v.copy()
         shared_tspan = None
         history = []
+        kept = []
         for c in range(int(rng.integers(2, 6))):
             # repeat the previous solver often: state kept per solver shows on its second call
             if history and rng.random() < 0.45:
@@ -157,6 +158,7 @@ def run(rep, tier, seed):
             try:
                 sol = quiet(call, shared_model[kind], tspan, y_obj, shared_opt)
                 d1 = res_digest(sol)
+                kept.append((sol, d1, name, c))            # the result object is retained: later calls must not write into it
             except Exception as ex:  # noqa
                 d1 = ("raised", type(ex).__name__)
             case = dict(history=list(history), call_index=c)
@@ -194,8 +196,29 @@ def run(rep, tier, seed):
                     ", ".join(x[0] for x, y in zip(d1, d2) if x != y)
                 fails.append((case, f"call #{c} ({name}) after {c} earlier call(s) on shared objects differs from the same call on fresh objects "
                                     f"of equal values ({what})"))
+        for sol_k, d_k, name_k, c_k in kept:
+            if res_digest(sol_k) != d_k:
+                fails.append((dict(history=list(history), call_index=c_k), f"the result returned by call #{c_k} ({name_k}) was changed by a later call "
+                                                                             f"of the history"))
+                break
         if h < 3:
             hist_samples.append(history)
+    # ---- overwrite probe: a result is kept, the same solver is called again on a problem of the same size that needs more
+    #      iterations / steps (tighter tolerance, farther start); the kept result must be untouched
+    for name in ("nr_method", "continuous_nr", "lm", "sicnm", "Rodas", "ode15s", "backward_euler", "implicit_trapezoid", "fdae_solver"):
+        kind, call = kinds[name]
+        try:
+            o1 = Opt(ite_tol=1e-5, rtol=1e-3, atol=1e-6, step_size=0.1)
+            o2 = Opt(ite_tol=1e-11, rtol=1e-8, atol=1e-10, step_size=0.01)
+            s1 = quiet(call, factories[kind](), [0.0, 1.0], starts[kind].copy(), o1)
+            d1 = res_digest(s1)
+            quiet(call, factories[kind](), [0.0, 1.0], starts[kind] * 1.7 + 0.3, o2)
+            ncalls += 2
+            if res_digest(s1) != d1:
+                fails.append((dict(history=[dict(solver=name, opt="loose"), dict(solver=name, opt="tight, other start")], call_index=0),
+                              f"the result returned by the first {name} call was changed by a second {name} call (same problem size, more steps)"))
+        except Exception as ex:  # noqa
+            rep.notes.append(f"overwrite probe {name}: {type(ex).__name__}: {str(ex)[:80]}")
     rep.cov["evaluations"] = ncalls
     rep.cov["distinct_nontrivial"] = nhist
     rep.cov["rule"] = ("histories of 2-5 calls over the nine solvers sharing one Opt, one model per kind and one y0 (ndarray or Vars), the caller "
